@@ -244,7 +244,7 @@ def empty(slice_i, n):
 
 def parts(tier):
     n_slices = 8
-    ps = [Part("concat_names", enumerate_cases=(lambda t: ({"model": {"k": "Not", "c": [s_]}} for s_ in __import__("vf.strategies", fromlist=["x"]).concat_shapes())), check=check_ast, time_quick=150.0), Part("empty0", enumerate_cases=(lambda t: empty(0, 1)), check=check_ast, time_quick=120.0)] + [Part("exhaustive%d" % i, enumerate_cases=(lambda t, i=i: exhaustive(i, n_slices)), check=check_ast,
+    ps = [Part("wide_thresholds", enumerate_cases=(lambda t: __import__("vf.strategies", fromlist=["x"]).wide_threshold_cases()), check=check_ast, time_quick=200.0), Part("concat_names", enumerate_cases=(lambda t: ({"model": {"k": "Not", "c": [s_]}} for s_ in __import__("vf.strategies", fromlist=["x"]).concat_shapes())), check=check_ast, time_quick=150.0), Part("empty0", enumerate_cases=(lambda t: empty(0, 1)), check=check_ast, time_quick=120.0)] + [Part("exhaustive%d" % i, enumerate_cases=(lambda t, i=i: exhaustive(i, n_slices)), check=check_ast,
                time_quick=120.0) for i in range(n_slices)]
     ps.append(Part("random", strategy=lambda t: S.model_spec(kinds=KINDS, depth=3 if t == "quick" else 4, max_int=0, max_bool=5,
                                                              positive_only=True, min_leaves=2).map(lambda s: {"model": s}),
